@@ -49,6 +49,9 @@ def restricted_ok(case, obs):
                     return False
                 p = os.path.dirname(p)
         else:
+            # destination on an existing entry of the wrong kind (a directory onto a non-directory)
+            if dst in before and before[dst][0] is not None:
+                return False
             # a directory whose destination is taken while one of its ancestors is renamed too
             for osrc, odst, _, _ in files:
                 if osrc != odst and src.startswith(osrc + "/") and (dst in before or dsts.count(dst) > 1):
@@ -59,9 +62,6 @@ def restricted_ok(case, obs):
 def known_class(case, obs):
     """structured signature of the documented exceptions"""
     spec = case["spec"]
-    srcs = [os.path.normpath(os.path.join(d, rel)) for d, rel, _ in obs["gens"]]
-    if len(set(srcs)) != len(srcs):
-        return "entry-designated-twice"
     dir_links = [p for p, v in spec.items() if isinstance(v, (list, tuple)) and
                  os.path.normpath(os.path.join(os.path.dirname(p), v[1])) in spec and
                  spec[os.path.normpath(os.path.join(os.path.dirname(p), v[1]))] is None]
@@ -79,8 +79,6 @@ def known_class(case, obs):
     for a in case["answers"]:
         if a[0] == "custom":
             dst = a[1]
-            if case["mode"] != "path" and ("/" in dst.strip("/") or dst in ("..", ".", "")):
-                return "custom-path-in-other-directory"
             if any(os.path.normpath(os.path.join(r, dst)) in links for r in set(d for d, _, _ in obs["gens"])):
                 return "symlink-at-destination"
     if case["strategy"] in ("override", "manual") and case["mode"] != "path":
